@@ -300,7 +300,7 @@ func C05(c *core.Ctx) {
 		var dumps []string
 		var lastErr error
 		var p0 *types.Project
-		for rep := 0; rep < reps; rep++ { // fresh map orders: the result must not depend on visit order
+		for round := 0; round < reps; round++ { // fresh map orders: the result must not depend on visit order
 			p, e := safeLoad(wd, nil, []namedDoc{{Name: filepath.Join(wd, "compose.yaml")}})
 			if e != nil {
 				lastErr = e
